@@ -187,6 +187,9 @@ def r2_r3_spectrum(repo: Repo, rep):
                 continue
             if name == "slice":
                 continue
+            if name == "__store__":
+                bad.append(o)  # entries of the spectrum overwritten in place
+                continue
             if name in REINDEX:
                 bad.append(o)
             elif name in ("Add", "Sub", "Div", "abs", "exp", "Pow"):
@@ -305,6 +308,17 @@ def _fourier_dims(rep, R3, init):
         rep.check(R3, norm(list(fd)) == norm(list(range(1, D + 1))), init.site(), init.fq, f"{D} spatial axes: transformed axes = 1..{D} (not batch, not channels)", str(norm(list(fd))), f"D={D}: {norm(list(fd))}")
 
 
+def r5_stateless_forward(repo: Repo, rep):
+    R = rep.rule("R-C20-5", "the forward passes of the Fourier layer and of FNO keep no state: nothing derived from one input (padding, shapes, spectra) is stored on the module", floor=2,
+                 why="the padding depends on the input's resolution: a cached one ties the layer to the first grid it saw")
+    for cname in ("_FourierLayer", "FNO"):
+        ci = repo.cls(f"{FN}.{cname}")
+        fi = ci.methods.get("forward")
+        rep.saw(fi)
+        writes = sorted({dump(e.target)[:40] for p in paths(fi.node, expand_self=False) for e in p.events if e.kind in ("attr", "aug") and e.target is not None and dump(e.target).startswith("self.")})
+        rep.check(R, not writes, fi.site(), fi.fq, "forward writes no attribute of self", str(writes), f"forward writes {writes}")
+
+
 def r4_fno_structure(repo: Repo, rep):
     R = rep.rule("R-C20-4", "FNO.forward = channel map -> Fourier blocks -> channel map; the default channel maps and the layer's linear connection are nn.Linear on the last axis",
                  floor=4, why="any spatial mixing outside the spectral blocks breaks shift equivariance")
@@ -381,6 +395,7 @@ def run(repo: Repo, rep):
     r1_no_input_write(repo, rep)
     r2_r3_spectrum(repo, rep)
     r4_fno_structure(repo, rep)
+    r5_stateless_forward(repo, rep)
 
 
 _F = "src/torchphysics/models/FNO.py"
